@@ -105,7 +105,9 @@ def track_cmd(rng, max_track=12):
         return "@" + str(rng.choice([1, 5, 25, 128, 40])) + " "
     return rng.choice(["Tempo(120)", "TEMPO=90;", "y7,100 ", "M(64)", "V(100)", "P(32)", "EP(90)", "REV(40)",
                        "PB(100)", "p(64)", "BR(12)", "TimeSignature(3,4)", "KeyShift(2)", "TrackKey(-1)",
-                       "KF+(fc)", "KF-(b)", "KeyFlag=(0,0,0,0,0,0,0)", "TrackSync;"])
+                       "KF+(fc)", "KF-(b)", "KeyFlag=(0,0,0,0,0,0,0)", "TrackSync;", "TIME(2:1:0)", "Time(1:3:10)", "TIME(96)",
+                       "MeasureShift(1)", "TimeSignature(6,8)", "TimeSignature(4)", "TIME(1:2)", "TIME()", "PlayFrom(1:2:0)", "?",
+                       "TimeSignature(3,5)", "Tempo(500)", "T(30)"])
 
 
 def core_program(rng, size=None, feats=None):
